@@ -55,9 +55,10 @@ def make_case(seed):
     else:
         for _ in range(rng.randint(1, 7)):
             # sizes chosen so that int(round(4*sx))+1 is odd for some and even for others
-            fa = rng.choice([1.0, 1.15, 1.3, 1.5, 1.8, 2.2])
+            fa = rng.choice([1.0, 1.15, 1.3, 1.5, 1.8, 2.2, 0.97])
             a = beam * fa
-            b = beam * rng.choice([1.0, min(fa, 1.2)])
+            # "every source size": also catalogue rows a few per cent narrower than the psf in one or both axes
+            b = beam * (rng.choice([1.0, min(fa, 1.2), 0.93]) if fa >= 1.0 else rng.choice([fa, 0.93]))
             # different islands must not overlap: >= 3.5 FWHM (of each) between their sources
             for _try in range(200):
                 x, y = rng.uniform(14, W - 14), rng.uniform(14, H - 14)
